@@ -119,6 +119,9 @@ NewVisit(rs, s, claim, tok2, t) ==
   IN [rs EXCEPT !.recvPrev[s] = rs.recvCur[s], !.recvCur[s] = t,
                 !.visit[s] = [open |-> TRUE, claim |-> claim, gappolls |-> 0, appreqs |-> 0, tok2 |-> tok2],
                 !.declined[s] = {},
+                \* a request still unanswered when the station takes a new token was abandoned (an unexpected telegram
+                \* ended the wait): 'at most one of reply / time-out per request'
+                !.outstanding[s] = -1,
                 !.cadNs[s] = ns,
                 !.cadVisits[s] = IF full THEN 0 ELSE visits,
                 !.cadPolled[s] = IF fresh \/ full THEN {} ELSE @,
@@ -304,9 +307,11 @@ OnCb(rs, e) ==
       judged == ~rs.disturbed
   IN IF e.k = "transmit" THEN
        LET cs == <<
-             <<"C15.holder", (rs.cfg.mode # "single" => rs.holder = s) /\ rs.outstanding[s] = -1>>,
-             <<"C15.rr", rs.rrNext[s] # -1 => rs.rrNext[s] = a>>,
-             <<"C15.done", a \notin rs.declined[s]>> >>
+             <<"C15.holder", rs.cfg.mode # "single" => (rs.holder = s /\ rs.outstanding[s] = -1)>>,
+             \* (single-station runs: the adversarial peer can leave tokens unread in the PHY buffer, so the visits
+             \* seen on the wire are not the visits the station lives through - the per-visit clauses are not judged)
+             <<"C15.rr", (rs.cfg.mode # "single" /\ rs.rrNext[s] # -1) => rs.rrNext[s] = a>>,
+             <<"C15.done", rs.cfg.mode # "single" => a \notin rs.declined[s]>> >>
            rs1 == IF e.sent
                   THEN [rs EXCEPT !.appsent[s] = TRUE, !.outstanding[s] = IF e.reply THEN a ELSE -1, !.rrNext[s] = a]
                   ELSE [rs EXCEPT !.declined[s] = @ \cup {a}, !.rrNext[s] = (a + 1) % n]
